@@ -75,4 +75,17 @@ struct PTracked
   static std::string show(const T &t) { return "Tracked(" + std::to_string(t.read()) + ")"; }
 };
 
+template <int N>
+struct PAligned
+{
+  typedef TrackedA<N> T;
+  typedef int U;
+  static const char *name() { return N == 32 ? "Align32" : "Align64"; }
+  static T val(int k) { return T((int)PTracked::raw(k)); }
+  static U uval() { return 77; }
+  static bool same(const T &t, int k) { return t.read() == PTracked::raw(k); }
+  static std::string show(const T &t) { return std::string(name()) + "(" + std::to_string(t.read()) + ")"; }
+};
+static_assert(alignof(TrackedA<32>) == 32 && alignof(TrackedA<64>) == 64, "over-aligned payloads");
+
 }  // namespace c09
